@@ -1,10 +1,10 @@
 // ---------------- specification of unit c01_parse_into ----------------
 /// the accept condition of the predictive parser: nothing is pending any more (or only the end-of-input terminal)
 pub open spec fn accepted(s: Seq<ParseType>) -> bool { s.len() == 0 || (s.len() == 1 && s[0] == ParseType::T(0)) }
-pub open spec fn sym_ok(e: ParseType, np: int, nn: int) -> bool {
-    match e { ParseType::N(n) => n < nn, ParseType::T(_) => true, ParseType::E(p) => p < np }
+pub open spec fn sym_ok(e: ParseType, np: int, nn: int, nt: int) -> bool {
+    match e { ParseType::N(n) => n < nn, ParseType::T(t) => t < nt, ParseType::E(p) => p < np }
 }
-pub open spec fn stack_ok(s: Seq<ParseType>, np: int, nn: int) -> bool { forall|i: int| 0 <= i < s.len() ==> sym_ok(#[trigger] s[i], np, nn) }
+pub open spec fn stack_ok(s: Seq<ParseType>, np: int, nn: int, nt: int) -> bool { forall|i: int| 0 <= i < s.len() ==> sym_ok(#[trigger] s[i], np, nn, nt) }
 pub open spec fn counts(e: ParseType, prods: Seq<Production>) -> int {
     match e { ParseType::E(p) => if p < prods.len() && !prods[p as int].is_push_production { 1 } else { 0 }, _ => 0 }
 }
@@ -14,9 +14,9 @@ pub open spec fn depth_of(s: Seq<ParseType>, prods: Seq<Production>) -> int decr
 }
 pub open spec fn is_marker(e: ParseType) -> bool { e is E }
 /// well-formed generated tables: every production's left-hand side and symbols are in range, right-hand sides hold no markers
-pub open spec fn tables_ok(prods: Seq<Production>, nn: int) -> bool {
+pub open spec fn tables_ok(prods: Seq<Production>, nn: int, nt: int) -> bool {
     forall|p: int| 0 <= p < prods.len() ==> (#[trigger] prods[p]).lhs < nn
-        && stack_ok(prods[p].production@, prods.len() as int, nn)
+        && stack_ok(prods[p].production@, prods.len() as int, nn, nt)
         && forall|j: int| 0 <= j < prods[p].production@.len() ==> !is_marker(#[trigger] prods[p].production@[j])
 }
 pub proof fn depth_bound(s: Seq<ParseType>, prods: Seq<Production>)
